@@ -21,3 +21,39 @@ class LocalFsspecStorage(FsspecStorage):
 
     def fs_constructor(self):
         return LocalFileSystem()
+
+
+class MemFsspecStorage(FsspecStorage):
+    """FsspecStorage over fsspec's in-memory filesystem (whose ls() - like AbstractFileSystem.ls -
+    returns detail dicts unless asked otherwise).  The memory filesystem is one process-wide
+    store, so every storage gets its own root."""
+
+    _n = 0
+
+    def __init__(self):
+        import os
+        MemFsspecStorage._n += 1
+        super().__init__(f'/memfs_{os.getpid()}_{MemFsspecStorage._n}')
+
+    def fs_constructor(self):
+        from fsspec.implementations.memory import MemoryFileSystem
+        return MemoryFileSystem()
+
+    def clone(self) -> 'MemFsspecStorage':
+        other = MemFsspecStorage()
+        fs = self.fs_constructor()
+        src, dst = str(self._storage_path), str(other._storage_path)
+        for path in fs.find(src):
+            target = dst + path[len(src):]
+            fs.mkdirs(target.rsplit('/', 1)[0], exist_ok=True)
+            with fs.open(path, 'rb') as a, fs.open(target, 'wb') as b:
+                b.write(a.read())
+        for d in fs.ls(src, detail=False):
+            if fs.isdir(d):
+                fs.mkdirs(dst + d[len(src):], exist_ok=True)
+        return other
+
+    def destroy(self):
+        fs = self.fs_constructor()
+        if fs.exists(str(self._storage_path)):
+            fs.rm(str(self._storage_path), recursive=True)
